@@ -137,6 +137,9 @@ func main() {
 		asJSON := fs.Bool("json", false, "json output")
 		prof := fs.String("cpuprofile", "", "write cpu profile")
 		qcap := fs.Int("qcap", 2, "quick-tier cap for unroll loops (0 = none)")
+		methods := fs.Bool("methods", false, "run exported methods on the value returned without error")
+		zero := fs.Bool("zero", false, "receiver is the zero value")
+		unitsec := fs.Int("unitsec", 400, "unit time limit")
 		fs.Parse(os.Args[2:])
 		args := fs.Args()
 		p, err := gvc.Load(*repo, true)
@@ -148,6 +151,7 @@ func main() {
 		cfg.Verbose = *verbose
 		cfg.MaxUnroll = *unroll
 		cfg.QuickLoopCap = *qcap
+		cfg.UnitSec = *unitsec
 		if *prof != "" {
 			f, _ := os.Create(*prof)
 			pprof.StartCPUProfile(f)
@@ -159,7 +163,7 @@ func main() {
 				fmt.Println("not found:", args[i])
 				os.Exit(2)
 			}
-			r := gvc.VerifyFunc(p, fn, cfg, gvc.Options{UseRequires: true, CheckPosts: *posts, NoAlias: *noalias})
+			r := gvc.VerifyFunc(p, fn, cfg, gvc.Options{UseRequires: true, CheckPosts: *posts, NoAlias: *noalias, MethodsOnSuccess: *methods, ZeroRecv: *zero})
 			if *asJSON {
 				b, _ := json.MarshalIndent(r, "", " ")
 				fmt.Println(string(b))
